@@ -24,7 +24,7 @@ class TlcResult:
 
 _RE_STATES = re.compile(r"^(\d+) states generated, (\d+) distinct states found")
 _RE_DEPTH = re.compile(r"^The depth of the complete state graph search is (\d+)")
-_RE_COV = re.compile(r"^<(\w+) line \d+, col \d+ to line \d+, col \d+ of module (\w+)>: (\d+):(\d+)")
+_RE_COV = re.compile(r"^<(\w+) line \d+, col \d+ to line \d+, col \d+ of module (\w+)(?: \([\d ]+\))?>: (\d+):(\d+)")
 
 
 def run_tlc(module, cfg, rundir, on_edge=None, workers=None, timeout=1800, env=None, extra=(), heap="8g",
